@@ -80,7 +80,7 @@ CLAIMED = {
          "DESIGN.md §4 C18"),
  'C01': ("proptest random and structure-aware mutated section sets driven through every reading, lookup, unwinding, evaluation and conversion entry point, with truncation sweeps and a fault-injecting Reader; oracle = robustness invariants (no panic / abort / stack overflow / hang, bounded lazy iterators, documented stop-after-error), observed in-process and through worker exit status and a watchdog",
          "Exploration. Random bytes, well-formed assembler output for every section kind, and mutations of it (overwrites, extreme patterns, truncation, splices, repetition, long runs, swaps), deep nesting (entry_value inside entry_value, chains of only-children, long runs of null tuples) on a 2 MiB stack, generated expression bytecode for address sizes 1/2/4/8; every public read-side entry point incl. .debug_names, package indexes, aranges, pubnames, macros, CFI and .eh_frame_hdr, the evaluator with canned answers, Dwarf::from and FrameTable::from (+ write); truncation at every byte of one section and reader failure at every operation (strided). Both build profiles, so arithmetic overflow and debug assertions count.",
-         "Never establishes absence. Memory safety relies on Rust's checks (no sanitizer run in the quick tier). Results of Dwarf::from with entries nested > 1000 deep are not written (recorded finding). Reader failures are injected only for the Dwarf-level readers, not the frame sections.",
+         "Never establishes absence. Memory safety relies on Rust's checks (no sanitizer run in the quick tier). Reader failures are injected only for the Dwarf-level readers, not the frame sections.",
          "DESIGN.md §4 C01"),
  'C17': ("proptest random lookup tables assembled from key->value models by independent encoders; oracle = linear scan of the model for every present key and a set of absent keys; deterministic loader-wiring check with tagged buffers",
          "Exploration. Package indexes v2/v5 (hash placement by the format's rule, every column subset, collisions, load up to full-minus-one) incl. DwarfPackage::find_cu/find_tu/cu_sections/tu_sections contributions; .debug_aranges with padding for every address size and format, interior null tuples; pubnames/pubtypes; .debug_str_offsets/.debug_addr; .debug_names with buckets, collisions, abbreviations, parent chains and type units; Dwarf/DwarfSections/load_sup/DwarfPackageSections loaders with tagged buffers.",
